@@ -468,6 +468,11 @@ def run_cross_rules(ctx):
         ('single_answer_list', lambda: M.ListGrader(answers=['a'], subgraders=S())),
         ('answer_lists_different_length', lambda: M.ListGrader(answers=(['a', 'b'], ['c']), subgraders=S())),
         ('answer_lists_different_length', lambda: M.SingleListGrader(answers=(['a', 'b'], ['c']), subgrader=S())),
+        ('answer_lists_different_length', lambda: M.SingleListGrader(answers={'expect': (['a', 'b'], ['a', 'b', 'c'])}, subgrader=S())),
+        ('answer_lists_different_length', lambda: M.SingleListGrader(answers={'expect': ('a, b', 'a, b, c')}, subgrader=S())),
+        ('answer_lists_different_length', lambda: M.SingleListGrader(answers=({'expect': (['a', 'b'], ['c', 'd'])}, {'expect': (['e', 'f'], ['g'])}), subgrader=S())),
+        ('answer_lists_different_length', lambda: M.ListGrader(answers=[{'expect': (['a', 'b'], ['a', 'b', 'c'])}, ['x']],
+                                                               subgraders=M.SingleListGrader(subgrader=S()))),
         ('empty_answer_item', lambda: M.SingleListGrader(answers=['a', ''], subgrader=S())),
         ('interval_bad_bracket', lambda: M.IntervalGrader(answers='{1,2}')),
         ('interval_bad_bracket', lambda: M.IntervalGrader(answers=['[', '1', '2', '>'])),
